@@ -65,19 +65,31 @@ def cases(draw, max_n=30):
         rows.append([t, draw(st.integers(lo, hi)), hi, lo, draw(st.integers(lo, hi)), draw(st.integers(0, 9))])
         t += draw(st.sampled_from((step, step, step, 0, 1, 3 * step)))
     preload = min(n, draw(st.sampled_from((0, 1, n // 2, n))))
-    return {"tz": tz, "tf": tf, "stream": rows, "preload": preload, "chunks": draw(gs.chunking(n - preload)), "fill": draw(st.booleans()), "on_transition": on_transition}
+    return {"tz": tz, "tf": tf, "stream": rows, "preload": preload, "chunks": draw(gs.chunking(n - preload)), "fill": draw(st.booleans()), "on_transition": on_transition, "mode": draw(st.sampled_from(("manager", "manager", "indicator", "hexital")))}
 
 
 def _collapse(case):
+    from hexital import Hexital
     from hexital.core.candle_manager import CandleManager
+    from hexital.indicators import HighLowAverage
 
     rows = case["stream"]
     pre = min(case.get("preload", 0), len(rows))
-    m = CandleManager(mk_candles(rows[:pre]), timeframe=case["tf"], timeframe_fill=bool(case.get("fill")))
+    mode = case.get("mode", "manager")
+    fill = bool(case.get("fill"))
+    if mode == "indicator":
+        m = HighLowAverage(candles=mk_candles(rows[:pre]), timeframe=case["tf"], timeframe_fill=fill)
+        get = lambda: m.candles  # noqa: E731
+    elif mode == "hexital":
+        m = Hexital("c18", mk_candles(rows[:pre]), [HighLowAverage(timeframe=case["tf"])], timeframe_fill=fill)
+        get = lambda: m.candles(case["tf"].upper())  # noqa: E731
+    else:
+        m = CandleManager(mk_candles(rows[:pre]), timeframe=case["tf"], timeframe_fill=fill)
+        get = lambda: m.candles  # noqa: E731
     rest = rows[pre:]
     for a, b in split_chunks(len(rest), case.get("chunks", [])):
         m.append(mk_candles(rest[a:b]))
-    return snap(m.candles, readings=False)
+    return snap(get(), readings=False)
 
 
 def _under(tz, fn):
